@@ -273,12 +273,12 @@ Proof.
     + repeat split; try lia. intros ->. rewrite H4; auto.
 Qed.
 
-Lemma shut_ctxs_facts l : forall cs a, shut_ctxs l = (cs, a) -> sum phi_c cs <= sum phi_c l.
+Lemma shut_ctxs_facts mk l : forall cs a, shut_ctxs mk l = (cs, a) -> sum phi_c cs <= sum phi_c l.
 Proof.
   induction l as [|c r IH]; intros cs a H; simpl in H.
   - injection H as <- <-; simpl; auto.
-  - destruct (shut_ctxs r) as [r' l'] eqn:E. specialize (IH _ _ eq_refl).
-    destruct (c_onlist c) eqn:Eo; [destruct (c_ref c =? 0)|]; injection H as <- <-; simpl;
+  - destruct (shut_ctxs mk r) as [r' l'] eqn:E. specialize (IH _ _ eq_refl).
+    destruct (c_onlist c) eqn:Eo; [destruct (c_ref c =? 0); [|destruct mk]|]; injection H as <- <-; simpl;
       destruct c; unfold phi_c in *; simpl in *; subst; simpl;
       repeat match goal with |- context[b2n (negb ?b)] => is_var b; destruct b; simpl end; lia.
 Qed.
@@ -334,7 +334,7 @@ Proof.
   - (* AMsgqClose *)
     destruct (k_phase (sk s)); inv_some H; cert_plain ltac:(destruct (k_pclosed (sk s)); simpl; lia).
   - (* AShutCtxs *)
-    destruct (shut_ctxs (ctxs s)) as [cs l] eqn:E. inv_some H. apply shut_ctxs_facts in E. cert_plain lia.
+    destruct (shut_ctxs true (ctxs s)) as [cs l] eqn:E. inv_some H. apply shut_ctxs_facts in E. cert_plain lia.
   - (* AWaitCtxs *) destruct (any_ctx_onlist s); [discriminate H|]. inv_some H. cert_plain lia.
   - (* AWaitPipes *) destruct (any_pipe_onlist s); [discriminate H|]. inv_some H. cert_plain lia.
   - (* AProtoClose *)
@@ -392,7 +392,7 @@ Proof.
     destruct (nth_error (ctxs s) c) as [x|] eqn:E; [|inv_some H; cert_plain lia].
     destruct (k_freed (sk s)); inv_some H.
     + cert_plain lia.
-    + cert_plain ltac:(pose proof (sum_upd_le phi_c (ctxs s) c cset_fini) as X; lapply X; [lia|intros []; unfold phi_c; simpl; bdestr; lia]).
+    + cert_plain ltac:(pose proof (sum_upd_le phi_c (ctxs s) c (fun x => cset_fini (cset_unlink x))) as X; lapply X; [lia|intros []; unfold phi_c; simpl; bdestr; lia]).
 Qed.
 
 Lemma Wt_drop s1 s e : (forall cl, nuo s1 cl <= nuo s (e :: cl)) ->
@@ -1116,42 +1116,47 @@ Theorem reachable_step_decreases ph la fi ls s l s' :
 Proof. intros Hr. apply step_decreases. eapply TInv_run; [apply TInv_init|eauto]. Qed.
 
 (* ================================================================ selection by the source's form *)
-Definition all_fixed (fx : fixes) : bool := fx_ephold fx && fx_epid fx && fx_ctxfini fx && fx_lateop fx && fx_ctxopen fx.
+Definition all_fixed (fx : fixes) : bool := fx_ephold fx && fx_epid fx && fx_ctxfini fx && fx_lateop fx && fx_ctxopen fx && fx_ctxmark fx.
 
 Lemma all_fixed_eq fx : all_fixed fx = true -> fx = fixes_all.
-Proof. destruct fx as [[] [] [] [] []]; unfold all_fixed; simpl; intros H; try discriminate H; reflexivity. Qed.
+Proof. destruct fx as [[] [] [] [] [] []]; unfold all_fixed; simpl; intros H; try discriminate H; reflexivity. Qed.
 
 (* the defect that the first repair missing from [fx] leaves in the model (Part 1 of CloseProofs) *)
 Definition pinned_defect (fx : fixes) : Prop :=
   match fx with
-  | mkFixes false _ _ _ _ =>
+  | mkFixes false _ _ _ _ _ =>
       exists s, run fx (init PhProto false false) w_ephold = Some s /\ bad s = [B_REF_UNDERFLOW]
-  | mkFixes true false _ _ _ =>
+  | mkFixes true false _ _ _ _ =>
       exists s, run fx (init PhProto false false) w_epid = Some s /\ bad s = [B_FIND_FREED]
-  | mkFixes true true false _ _ =>
+  | mkFixes true true false _ _ _ =>
       exists s, run fx (init PhFini true true) w_ctxfini = Some s /\
                 In (USockClose, C_OK, R_DESTROY) (rets s) /\ bad s = [] /\
                 (exists x, nth_error (ctxs s) 0 = Some x /\ c_pend x = [1%N]) /\
                 (exists s', step fx s (LRun 2) = Some s' /\ bad s' = [B_SOCK_FREED])
-  | mkFixes true true true false _ =>
+  | mkFixes true true true false _ _ =>
       exists s, run fx (init PhProto false false) w_lateop = Some s /\
                 In (USockClose, C_OK, R_DESTROY) (rets s) /\ k_freed (sk s) = true /\
                 k_pend (sk s) = [1%N] /\ done s = [] /\ no_internal_step fx s
-  | mkFixes true true true true false =>
+  | mkFixes true true true true false _ =>
       exists s, run fx (init PhFini true true) w_ctxopen = Some s /\
                 (exists r, nth_error (threads s) 1 = Some (AWaitCtxs :: r)) /\
                 bad s = [] /\ no_internal_step fx s
-  | mkFixes true true true true true => False
+  | mkFixes true true true true true false =>
+      exists s, run fx (init PhFini true true) w_ctxmark = Some s /\
+                (exists r, nth_error (threads s) 2 = Some (AWaitCtxs :: r)) /\
+                bad s = [] /\ no_internal_step fx s /\ find_ctx s 0 = None
+  | mkFixes true true true true true true => False
   end.
 
 Lemma pinned_defect_holds fx : all_fixed fx = false -> pinned_defect fx.
 Proof.
-  destruct fx as [a b c d e]. intros H.
-  destruct a; [|exact (ephold_refuted b c d e)].
-  destruct b; [|exact (epid_refuted true c d e)].
-  destruct c; [|exact (ctxfini_refuted true true d e)].
-  destruct d; [|exact (lateop_refuted true true true e)].
-  destruct e; [|exact (ctxopen_refuted true true true true)].
+  destruct fx as [a b c d e g]. intros H.
+  destruct a; [|exact (ephold_refuted b c d e g)].
+  destruct b; [|exact (epid_refuted true c d e g)].
+  destruct c; [|exact (ctxfini_refuted true true d e g)].
+  destruct d; [|exact (lateop_refuted true true true e g)].
+  destruct e; [|exact (ctxopen_refuted true true true true g)].
+  destruct g; [|exact (ctxmark_refuted true true true true true)].
   unfold all_fixed in H; simpl in H; discriminate H.
 Qed.
 
